@@ -80,6 +80,8 @@ type UpdCtx struct {
 type UpdIn struct {
 	Bindings []UpdBinding `json:"bindings"`
 	Ctxs     []UpdCtx     `json:"ctxs"`
+	// Empty: bindings whose snapshot is empty at every read (an empty answer must be cached like any other)
+	Empty []int `json:"empty,omitempty"`
 }
 type GrpIn struct {
 	Named bool `json:"named"` // give the two kubernetes bindings distinct names
@@ -273,9 +275,11 @@ func runSnap(in SnapIn) Obs {
 // ---- upd: the real UpdateSnapshots over a reader that never answers the same twice ----
 
 type fakeKube struct {
-	calls int
-	reads []int
-	byId  map[string]int // resource id marker -> read number
+	calls    int
+	reads    []int
+	byId     map[string]int // resource id marker -> read number
+	empty    map[int]bool   // bindings answering with an empty list
+	lastRead map[int]int    // binding -> number of its last read
 }
 
 func (f *fakeKube) WithKubernetesBindings([]htypes.OnKubernetesEventConfig)   {}
@@ -299,6 +303,13 @@ func (f *fakeKube) SnapshotsFor(name string) []kemtypes.ObjectAndFilterResult {
 	f.calls++
 	n, _ := strconv.Atoi(strings.TrimPrefix(name, "b"))
 	f.reads = append(f.reads, n)
+	if f.lastRead == nil {
+		f.lastRead = map[int]int{}
+	}
+	f.lastRead[n] = f.calls
+	if f.empty[n] {
+		return []kemtypes.ObjectAndFilterResult{}
+	}
 	r := kemtypes.ObjectAndFilterResult{}
 	r.Metadata.ResourceId = "read-" + strconv.Itoa(f.calls)
 	return []kemtypes.ObjectAndFilterResult{r}
@@ -342,7 +353,10 @@ func runUpd(in UpdIn) Obs {
 	}
 	hc.InitKubernetesBindings(kb, nil, log.NewNop())
 	hc.InitScheduleBindings(sb, nil)
-	fk := &fakeKube{}
+	fk := &fakeKube{empty: map[int]bool{}}
+	for _, b := range in.Empty {
+		fk.empty[b] = true
+	}
 	hc.KubernetesController = fk
 	isSched := map[int]bool{}
 	for _, b := range in.Bindings {
@@ -371,11 +385,21 @@ func runUpd(in UpdIn) Obs {
 			keys = append(keys, n)
 		}
 		sort.Ints(keys)
+		// an empty list carries no read marker: it stands for the binding's (last) read
+		val := func(binding int, objs []kemtypes.ObjectAndFilterResult) int {
+			if len(objs) == 0 && fk.empty[binding] {
+				return fk.lastRead[binding]
+			}
+			return readNo(objs)
+		}
 		for _, k := range keys {
 			co.Keys = append(co.Keys, k)
-			co.Vals = append(co.Vals, readNo(bc.Snapshots[bname(k)]))
+			co.Vals = append(co.Vals, val(k, bc.Snapshots[bname(k)]))
 		}
 		co.Objects = readNo(bc.Objects)
+		if n, err := strconv.Atoi(strings.TrimPrefix(bc.Binding, "b")); err == nil && bc.Type == kemtypes.TypeSynchronization {
+			co.Objects = val(n, bc.Objects)
+		}
 		o.Upd = append(o.Upd, co)
 	}
 	o.Reads = fk.reads
@@ -527,7 +551,8 @@ func Render(in Input, obs *Obs, crash string) core.Case {
 		})
 		c.Coq = fmt.Sprintf("CUpd (mkUpdIn %s %s) %s %s %s", bs, cs, os, core.CoqList(o.Reads, core.CoqN), bad)
 		c.Key = "upd" + bs + cs
-		c.Tags = []string{"upd", fmt.Sprintf("ctxs:%d", len(u.Ctxs))}
+		c.Tags = []string{"upd", fmt.Sprintf("ctxs:%d", len(u.Ctxs)), fmt.Sprintf("empty-snapshots:%v", len(u.Empty) > 0)}
+		c.Key += fmt.Sprint(u.Empty)
 		c.Nontrivial = len(u.Ctxs) >= 2
 	case in.Grp != nil:
 		c.Coq = fmt.Sprintf("CGrp %s %d %d %s", core.CoqBool(in.Grp.Named), len(o.GrpKeys), len(o.GrpObjs), bad)
@@ -636,6 +661,11 @@ func genUpd(r *core.Rng) UpdIn {
 		b := 1 + r.Intn(nb)
 		in.Ctxs = append(in.Ctxs, UpdCtx{Binding: b, Sync: !sched[b] && r.Chance(40)})
 	}
+	for i := 1; i <= nb; i++ {
+		if !sched[i] && r.Chance(30) {
+			in.Empty = append(in.Empty, i)
+		}
+	}
 	return in
 }
 
@@ -655,6 +685,8 @@ func Gen(r *core.Rng, tier string) ([]core.In[Input], bool) {
 	add(Input{Grp: &GrpIn{Named: false}}, "trigger-F25")
 	add(Input{Upd: &UpdIn{Bindings: []UpdBinding{{1, []int{1, 2}, false}, {2, nil, false}, {3, []int{1, 2}, true}},
 		Ctxs: []UpdCtx{{1, true}, {2, true}, {1, false}, {3, false}}}}, "corpus")
+	// an EMPTY snapshot is read once per execution, too (a second read of a locked binding drops its buffered events: C01)
+	add(Input{Upd: &UpdIn{Bindings: []UpdBinding{{1, []int{1}, false}, {2, []int{1}, false}}, Ctxs: []UpdCtx{{1, true}, {2, false}, {1, false}}, Empty: []int{1}}}, "corpus")
 	nSnap, nUpd := 120, 300
 	switch tier {
 	case "thorough":
